@@ -96,7 +96,11 @@ AnsMatches(fs, q, res) ==
 (* or succeeded (their ancestors are directories); outs = succeeded outputs. *)
 View(bfs, live, outs) ==
   Overlay(AddDirs(bfs, UNION {ProperAnc(p) : p \in live}), outs)
-SView(s) == View(s.bfs, s.live, s.outs)
+(* targets of the enclosing build_file functions that have already written their file: hidden from *)
+(* the view but regular files on disk - also while a nested call directly below one is live       *)
+WrittenTargets(s) ==
+  {s.stack[i].p : i \in {j \in 2..Len(s.stack) : s.stack[j].kind = "bf" /\ s.stack[j].wrote.t # "nil"}}
+SView(s) == Remove(View(s.bfs, s.live, s.outs), WrittenTargets(s))
 
 FromScratch(disk, rec) ==
   LET fs1 == Remove(disk, {CachePath} \cup {p \in rec.outs : IsFile(disk, p)})
@@ -109,13 +113,20 @@ ParentsCreatable(fs, p) ==
   /\ \A a \in ProperAnc(p) : a # CachePath
 HasLong(p) == \E i \in DOMAIN p : p[i] = "LONG"
 
-SetupErr(fs, claimedF, p) ==
+(* written = targets of enclosing build_file functions that have already written their file: those *)
+(* are hidden from the view but are regular files on disk, so no directory can be made below them.  *)
+(* As built, mkdir treats "exists" as success for the target's direct parent: a call for a path    *)
+(* directly below a written in-progress target passes set-up and its function is invoked (its own  *)
+(* open() then fails); only deeper paths fail at set-up.                                           *)
+SetupErrW(fs, claimedF, written, p) ==
   IF p \in claimedF THEN "RuntimeError"
   ELSE IF p = CachePath THEN "RuntimeError"
   ELSE IF IsDir(fs, p) THEN "IsADirectoryError"
   ELSE IF ~ParentsCreatable(fs, p) THEN "NotADirectoryError"
+  ELSE IF \E w \in written : w \in ProperAnc(Parent(p)) THEN "NotADirectoryError"
   ELSE IF HasLong(Parent(p)) THEN "OSError"
   ELSE ""
+SetupErr(fs, claimedF, p) == SetupErrW(fs, claimedF, {}, p)
 
 -----------------------------------------------------------------------------
 (* Records.  QRec = a recorded query, CRec = a recorded build_file/subbuild *)
@@ -227,7 +238,6 @@ Frame(kind, p, f, args, kw, cmp) ==
   [kind |-> kind, p |-> p, f |-> f, args |-> args, kw |-> kw, cmp |-> cmp, subs |-> <<>>,
    wrote |-> NilNode, fin |-> [out |-> "", v |-> TNone, x |-> 0, err |-> ""]]
 NoPend == [on |-> FALSE]
-
 InitState == [ph |-> "idle", disk |-> [p \in {Root} |-> DirNode], rec |-> NoRec,
               pre |-> EmptyFs, v0dirs |-> {}, bfs |-> EmptyFs, live |-> {}, outs |-> EmptyFs,
               claimedF |-> {}, claimedS |-> {}, stack |-> <<>>, vers |-> TDict(<<>>),
@@ -340,12 +350,20 @@ CheckEnd(s, e) ==
       ELSE IF fr.kind = "bf" /\ e.real # "file" THEN "TargetFileAfterOk"
       ELSE ""
     ELSE
-      IF fr.kind = "bf" /\ e.real # "none" THEN "TargetAbsentAfterFail"
+      \* the target is gone; a directory may linger on disk until the end of the build only where the
+      \* function itself made nested calls below its own target (their parents are removed at commit)
+      IF fr.kind = "bf" /\ e.real # "none"
+         /\ ~(e.real = "dir" /\ \E r \in AllRecs(fr.subs) : r.k = "bf" /\ fr.p \in ProperAnc(r.p))
+      THEN "TargetAbsentAfterFail"
       ELSE IF fr.fin.out = "raise" THEN
         IF fr.fin.x # 0 /\ ~e.same THEN "ExcIdentity"
         ELSE IF e.err # fr.fin.err THEN "ExceptionClassMatches"
         ELSE ""
-      ELSE IF e.err # (IF ~IsJson(fr.fin.v) THEN "TypeError" ELSE "RuntimeError")
+      \* not created: RuntimeError; where the look at the target itself fails (over-long last component) that
+      \* OSError surfaces instead - after the same clean-up
+      ELSE IF e.err # (IF ~IsJson(fr.fin.v) THEN "TypeError"
+                       ELSE IF fr.kind = "bf" /\ fr.p # <<>> /\ fr.p[Len(fr.p)] = "LONG" THEN "OSError"
+                       ELSE "RuntimeError")
         THEN "ExceptionClassMatches"
       ELSE ""
 
@@ -511,7 +529,7 @@ ApplyQ(s, e) ==
 
 ApplyBegin(s, e) ==
   IF e.ev = "bf_begin" THEN
-    LET serr == SetupErr(SView(s), s.claimedF, e.p)
+    LET serr == SetupErrW(SView(s), s.claimedF, WrittenTargets(s), e.p)
         s1 == [s EXCEPT !.live = @ \cup {e.p}, !.bfs = Remove(@, {e.p})]
         lk == IF serr = "" THEN LookupBF(s1, e.p, e.f, e.args, e.kw)
               ELSE NoLk
@@ -631,9 +649,13 @@ Apply(s, e) ==
 (* State invariants of the contract (checked by TLC in FBRefMC and at every *)
 (* step of every validated trace).                                           *)
 ViewWellFormed(s) == s.ph # "build" \/ WellFormed(SView(s))
-AtomicOutputs(s) ==      \* a target is absent from the view while its function runs
+AtomicOutputs(s) ==      \* a target is absent from the view while its function runs (never a file; a directory
+                         \* only when the function itself made a nested call for a path below its own target)
   s.ph # "build" \/ \A i \in 2..Len(s.stack) :
-     s.stack[i].kind # "bf" \/ ~Has(SView(s), s.stack[i].p)
+     \/ s.stack[i].kind # "bf"
+     \/ ~Has(SView(s), s.stack[i].p)
+     \/ /\ IsDir(SView(s), s.stack[i].p)
+        /\ \E q \in s.live \cup DOMAIN s.outs : s.stack[i].p \in ProperAnc(q)
 ClaimsCoverLive(s) == s.ph # "build" \/ (s.live \subseteq s.claimedF /\ DOMAIN s.outs \subseteq s.live)
 CacheNeverInView(s) == s.ph # "build" \/ ~Has(SView(s), CachePath)
 =========================================================================
